@@ -8,10 +8,13 @@ PROP = {'drive': ['Names'], 'modules': ['SfntV.Props.C14'],
                        'C14_post_roundtrip',
                        'C14_language_tables_ok',
                        'C14_name_roundtrip',
+                       'C14_name_encode_roundtrip',
                        'C14_name_order_independent',
                        'C14_tables_are_standard',
                        'C14_tag_roundtrip_partial',
-                       'C14_tag_string_roundtrip'],
+                       'C14_tag_string_roundtrip',
+                       'C14_choose_order_deterministic',
+                       'C14_choose_default_is_best'],
  'areas': [('names', 2500, 60000)],
  'rule': 'distinct case lines (codec inputs, post name lists, name tables); non-trivial = a byte >= 128 / a '
          'non-empty string / at least one glyph name / at least one name record',
@@ -21,8 +24,14 @@ PROP = {'drive': ['Names'], 'modules': ['SfntV.Props.C14'],
              'Only the branch of bcp47ToOtf for tags carrying the -x- extension is modelled; for tags without it the '
              'code scans langBcp47/scriptBcp47 in map order (DESIGN section 9 #39: nl-Latn -> FLE/NLD, bn-Beng -> '
              'beng/bng2 vary between calls) - probed, reported to C01/C08, not part of this theorem',
-             'script lists through (*gtab.Info).Encode / gtab.Read are not exercised here (C08)',
-             'Tables.Choose (language matcher) is not modelled',
+             'script lists through (*gtab.Info).Encode / gtab.Read: not modelled; exercised on the real code by the D '
+             'streams names.slrt (Encode -> Read -> bcp47ToOtf gives back every language system) and names.slspec '
+             '(independent Lean reader of the ScriptList on the written bytes); every pair of the two tables in the '
+             'thorough tier',
+             'Tables.Choose: proved up to the external matcher (candidate order = function of the map, default = '
+             'most preferred table); the x/text matcher is abstract, its answer (an index) is computed by the real '
+             'matcher and passed to the model in stream names.choose; Choose panics (language.MustParse) on a map '
+             'key that is not a BCP 47 tag - not modelled',
              'C14_post_roundtrip carries the guard 258 + (number of non-standard names) <= 65536: beyond it '
              'post.Info.Encode wraps the 16-bit glyphNameIndex silently (known finding C14-post-index-wrap, '
              'inside the stated domain of up to 65535 glyphs)',
@@ -40,9 +49,10 @@ PROP = {'drive': ['Names'], 'modules': ['SfntV.Props.C14'],
                            'by Encode',
                            'post header: ItalicAngle enters the model as the 32 bits of '
                            'int32(round(angle*65536)); float rounding not modelled',
-                           'iteration order of the Go maps appleBCP/msBCP is an explicit parameter; byte-exact '
-                           'correspondence of Encode only for Infos with at most one tag per platform, otherwise '
-                           'an order-independent summary (records with their string bytes) is compared'],
+                           'name.Info.Encode after the repair visits the language ids in increasing order '
+                           '(model: insertion sort of the regenerated tables); byte-exact correspondence for '
+                           'every Info, also with several tags per platform and beyond the capacity guards; '
+                           'C14_name_roundtrip still holds for every enumeration order'],
  'assumptions': ['NameDomain: Info keys distinct (Go maps), tags among the values of appleBCP/msBCP, Mac strings '
                  'in the Mac Roman repertoire, Windows strings valid Unicode, name ids 16-bit, Windows encoding '
                  'id 1 or 10 (10 only after the repair of name.Decode), directory and storage within 16-bit '
